@@ -424,11 +424,12 @@ def policy_call(legal, n_calls, ints):
     return bids[min((k // 100) % 4, len(bids) - 1)]
 
 
-def bundled_clients(scenario, policy, records):
+def bundled_clients(scenario, policy, records, addr=None):
     from bridge_env.network_bridge import client as CM
     from bridge_env.network_bridge.bidding_system import BiddingSystem
     from bridge_env.network_bridge.playing_system import PlayingSystem
     from vf.sim.session import ADDR
+    addr = addr or ADDR
 
     class Bids(BiddingSystem):
         def __init__(self, seat):
@@ -457,7 +458,7 @@ def bundled_clients(scenario, policy, records):
     def make(seat):
         def fn():
             cl = RecClient(player=be.SEAT[seat], team_name=scenario['teams'][seat % 2], bidding_system=Bids(seat),
-                           playing_system=Plays(seat), ip_address=ADDR[0], port=ADDR[1])
+                           playing_system=Plays(seat), ip_address=addr[0], port=addr[1])
             cl.seat_idx = seat
             with cl:
                 cl.run()
@@ -534,6 +535,71 @@ def bundled_problems(scenario, r, records):
     return out
 
 
+def run_bundled_real(scenario, policy, timeout_s=90.0):
+    """The same session with four bundled Clients on REAL threads and REAL loopback sockets (vf/sim/realrun.py); returns
+    (real result, records) or None when the wall-clock safety net stopped it (skipped, never judged)."""
+    import types
+    from bridge_env.network_bridge import client as CM, server as SV
+    from vf.sim.realrun import run_real_session
+    records = {s: [] for s in range(4)}
+    real = CM.ObservedPlayingPhase
+
+    def recording_phase(contract, player, hand):
+        env = real(contract=contract, player=player, hand=hand)
+        rec = records[be.SEAT_IDX[player]]
+        if rec and isinstance(rec[-1], dict):
+            rec[-1]['env'] = env
+        return env
+    import logging
+    log_disabled = logging.root.manager.disable
+    logging.disable(logging.CRITICAL)
+    CM.ObservedPlayingPhase = recording_phase
+    CM.print = SV.print = lambda *a, **kw: None
+    try:
+        rr = run_real_session(scenario, timeout_s, client_fns=lambda ip, port: bundled_clients(scenario, policy, records, (ip, port)))
+    except Inconclusive:
+        return None
+    finally:
+        CM.ObservedPlayingPhase = real
+        for m in (CM, SV):
+            try:
+                del m.print
+            except AttributeError:
+                pass
+        logging.disable(log_disabled)
+    if rr.timed_out:
+        return None
+    rr.outcome = types.SimpleNamespace(status='completed', detail=None)
+    return rr, records
+
+
+def check_bundled_real(scenario, policy, stats=None):
+    """C11(b) on the real thing: the simulated run (sequential schedule) and the run on real sockets of the same session
+    - same boards, same policies - must both satisfy the replica oracle and must write the byte-identical log."""
+    sched = {'kind': 'sequential'}
+    r, records = run_bundled(scenario, sched, policy)
+    probs = bundled_problems(scenario, r, records)
+    if probs:
+        raise Violation(probs[0][0], case_of(scenario, sched, r, {'policy': policy}), probs[0][1])
+    got = run_bundled_real(scenario, policy)
+    if got is None:
+        if stats is not None:
+            stats.excluded['real-socket run stopped by the wall-clock safety net (skipped, not judged)'] += 1
+        return
+    rr, rrecords = got
+    probs = [('real sockets: ' + c, d) for c, d in bundled_problems(scenario, rr, rrecords)]
+    if not probs and rr.output_text != r.output_text:
+        probs = [('bundled clients with the same policies wrote a different log on real sockets than in the simulated run',
+                  {'real': (rr.output_text or '')[:300], 'simulated': r.output_text[:300]})]
+    if probs:
+        raise Violation(probs[0][0], case_of(scenario, sched, r, {'policy': policy, 'real_sockets': True}), probs[0][1])
+    if stats is not None:
+        stats.evaluated()
+        stats.cls('bundled sessions repeated on real threads + loopback sockets (replica oracle, byte-identical log)')
+        if any(lg['play_history'] is not None for lg in json.loads(rr.output_text)['logs']):
+            stats.cls('bundled real-socket sessions with a played board')
+
+
 POLICY = st.fixed_dictionaries({'bids': st.lists(st.lists(st.integers(0, 999), min_size=3, max_size=8), min_size=4, max_size=4),
                                 'plays': st.lists(st.lists(st.integers(0, 999), min_size=5, max_size=13), min_size=4, max_size=4)})
 
@@ -549,7 +615,9 @@ def bundled_scenario(draw, max_boards=3):
 
 def plan_c11(tier):
     n, per = (8, 160) if tier == 'quick' else (12, 2500)
-    return [{'kind': 'bundled', 'n': per, 'max_boards': 3 if tier == 'quick' else 5} for _ in range(n)]
+    nr, perr = (4, 3) if tier == 'quick' else (12, 40)
+    return [{'kind': 'bundled', 'n': per, 'max_boards': 3 if tier == 'quick' else 5} for _ in range(n)] + \
+           [{'kind': 'bundled-real', 'n': perr, 'max_boards': 2} for _ in range(nr)]
 
 
 def check_bundled(scenario, schedule, policy, stats=None, completion_only=False):
@@ -577,6 +645,10 @@ def check_bundled(scenario, schedule, policy, stats=None, completion_only=False)
 
 
 def run_shard_c11(spec, seed, tier, stats):
+    if spec['kind'] == 'bundled-real':
+        v = run_hypothesis(lambda scenario, policy: check_bundled_real(scenario, policy, stats),
+                           {'scenario': bundled_scenario(spec['max_boards']), 'policy': POLICY}, seed, spec['n'], False)
+        return [v] if v else []
     v = run_hypothesis(lambda scenario, schedule, policy: check_bundled(scenario, schedule, policy, stats),
                        {'scenario': bundled_scenario(spec['max_boards']), 'schedule': SCHEDULE(), 'policy': POLICY},
                        seed, spec['n'], tier == 'thorough')
